@@ -589,6 +589,7 @@ const prelude = `(set-logic ALL)
 (declare-fun bit$and (Int Int) Int)
 (declare-fun bit$or (Int Int) Int)
 (declare-fun bit$xor (Int Int) Int)
+(declare-fun chan$cap (Ref) Int)
 (declare-fun bit$shl (Int Int) Int)
 (declare-fun bit$shr (Int Int) Int)
 (declare-fun real$toint (Real) Int)
